@@ -1,6 +1,8 @@
 // c14: Glob, WalkDir, ReadDir and the existence helpers enumerate exactly what
 // exists. Model checking by bounded exhaustive enumeration: every tree of a
-// small universe x every pattern of <= k segments x every WalkDir root x every
+// small universe (plain trees over the kinds, and mode trees whose entries
+// carry setuid/setgid/sticky and changed permission bits) x every pattern of
+// <= k segments x every ReadDir path x every WalkDir root x every
 // callback behaviour at every visit index, executed on the real avfs file
 // systems and, as oracle, with path/filepath and os on an identical tree on
 // tmpfs at the same absolute path.
@@ -405,19 +407,22 @@ func main() {
 			"states": totStates, "transitions": totEvals, "traces_validated_against_impl": totEvals,
 			"evaluations": totEvals, "distinct_nontrivial": len(classes),
 			"rule": "every tree of the universe is materialised with plain calls in a fresh instance of every file system (states) and on tmpfs at the same absolute path; " +
-				"every Glob pattern, ReadDir path and WalkDir (root, callback family, visit index) of the bound is evaluated on both and compared (transitions/evaluations); " +
+				"every Glob pattern, ReadDir path and WalkDir (root, callback family, visit index) of the bound is evaluated on both and compared (transitions/evaluations), every accessor of every listed fs.DirEntry included; " +
 				"helpers are compared with Stat/ReadDir of the same instance; distinct_nontrivial = distinct (function, oracle result class) classes observed",
 			"samples": samples, "exhaustive": exhaustive, "bound": bound,
 			"states_per_fs": states, "evaluations_per_func": evals, "oracle_result_classes": classes,
 			"trees_in_universe": len(trees), "trees_completed": len(done), "workers": n,
-			"not_materialised": buildFailed, "violation_instances": instances, "violation_signatures": sc,
+			"mode_trees_in_universe": len(u.modeTrees()),
+			"not_materialised":       buildFailed, "violation_instances": instances, "violation_signatures": sc,
 			"known_findings_matched": matched, "budget_s": budget,
 		},
 		Assumptions: []string{
 			"oracle = path/filepath.Glob, os.ReadDir, path/filepath.WalkDir of the installed toolchain (" + runtime.Version() + ") on tmpfs as root; Glob errors are compared with what filepath.Glob reports for the same pattern on the identical tree",
 			"symbolic-link trees only on file systems that advertise FeatSymlink (MemFS, RoFS(MemFS), FailFS(MemFS)); OrefaFS and BasePathFS get the link-free trees",
 			"BasePathFS has base path R: arguments are translated R/x -> /x and oracle results likewise before comparing; R itself and R/ both map to /",
-			"compared: Glob error class, nil-ness and the ordered list; ReadDir error class, names in order, Type, IsDir, Info type and regular-file size; WalkDir visit sequence (path, type, IsDir, error class) and returned error class. Not compared: d.Name(), permission bits, symlink sizes, nil versus empty ReadDir slices",
+			"compared: Glob error class, nil-ness and the ordered list; ReadDir error class, names in order and of every entry Type() bit for bit, IsDir(), Info(): success, mode (type, permission, setuid/setgid/sticky bits), regular-file size, Name(), IsDir(); WalkDir visit sequence (path, type, IsDir, error class), of every visited entry Name() (below the root) and Type() bit for bit, in the walks whose callback never acts (families none, prop) also Info() as for ReadDir, and the returned error class. Not compared with the oracle: the name of the root entry of a walk (it is what Lstat answers for the spelling given), symlink sizes, modification times, nil versus empty ReadDir slices",
+			"every listed entry is also held to itself and to Lstat of the same path on the same file system: Name/IsDir/Type agree with Info(), IsDir with Type, and Info() name, mode, size, modification time, IsDir equal Lstat's (skipped where Lstat or Info fails, e.g. unsearchable directory)",
+			"mode trees: modes are given with Chmod after creation (not with the perm argument of Mkdir/OpenFile, whose handling of special bits belongs to C01/C03); a tree whose mode the scratch file system does not keep is a harness error; everything is owned by root",
 			"helpers are only held to their documented meaning: Exists <=> Stat succeeds, DirExists <=> Stat succeeds and is a directory, IsDir = Stat, IsEmpty = no entries / size 0; which error accompanies a false answer is not compared",
 			"non-administrator part: MemFS view (Sub(\"/\") + SetUser) versus the kernel under setfsuid/setfsgid with supplementary groups dropped on a locked thread; small fixed family of trees with one directory of mode 0000/0111/0444",
 		},
